@@ -30,11 +30,7 @@ def mk_path(it, lengths=True):
         p.attrs['_lengths'] = list(ls)
         p.attrs['_length'] = Rat.sym('Ltot')
         poly.POSITIVE.add('Ltot')
-        g = it.model.module('path').globals
-        tol = []
-        for nm in ('LENGTH_ERROR', 'LENGTH_MIN_DEPTH'):
-            tol.append(it.eval(g[nm], Env(module=it.model.module('path'))) if nm in g else Rat.const(0))
-        p.attrs['_length_tol'] = tuple(tol)
+        p.attrs['_length_tol'] = tuple(module_const(it, 'path', nm, Rat.const(0)) for nm in ('LENGTH_ERROR', 'LENGTH_MIN_DEPTH'))
         it.call_hooks.setdefault('path.Line.length', lambda it2, a, k, segs=segs, ls=ls: ls[[i for i, x in enumerate(segs) if x is a[0]][0]] * Rat.sym('Ltot'))
     return p, segs
 
